@@ -25,6 +25,9 @@ theorem good_err {n : Nat} {e : Err} {rest : List Char} (h : rest.length ≤ n) 
     Good n (.err e rest) := by
   cases e <;> first | exact h | exact absurd rfl he
 
+/-- closes goals about list lengths -/
+macro "len_tac" : tactic => `(tactic| first | omega | (simp; omega) | simp | (simp_all; omega))
+
 /-! ## layout -/
 
 /-- a layout scan never lengthens the input -/
@@ -68,8 +71,490 @@ theorem runTok_munch (p : Char → Bool) (k : Kind) (s : List Char) (k' : Kind) 
 theorem skipQ_le (q : Char) (s : List Char) : (skipQ q s).length ≤ s.length := by
   fun_induction skipQ q s <;> simp_all <;> omega
 
+theorem escValue_ne_eof (n : Nat) : escValue n ≠ some .eof := by
+  unfold escValue
+  split
+  · simp
+  · split <;> simp
+
 theorem qGo_good (u : UC) (m : QM) (st : QS) (s : List Char) :
     Good (s.length + (if m = .ch then 1 else 0)) (qGo u m st s) := by
-  fun_induction qGo u m st s <;> simp_all [good_err]
+  fun_induction qGo u m st s <;> simp_all
+  all_goals first
+    | omega
+    | exact Good.mono (by assumption) (by omega)
+    | exact Good.mono (by assumption) (by split <;> omega)
+    | (apply good_err
+       · first | len_tac | (split <;> simp <;> omega)
+       · first
+         | (intro h; subst h; exact absurd (by assumption) (escValue_ne_eof _))
+         | (intro h; cases h)
+         | (cases m <;> simp [QM.bad]))
+
+theorem bqGo_good (u : UC) (s : List Char) : Good s.length (bqGo u s) := by
+  fun_induction bqGo u s <;> simp_all
+  all_goals first
+    | omega
+    | exact Good.mono (by assumption) (by omega)
+    | (apply good_err
+       · len_tac
+       · (intro h; cases h))
+
+theorem recoverQ_good (fixed : Bool) (q : Char) (n : Nat) (r : R) (h : Good n r) :
+    Good n (recoverQ fixed q r) := by
+  cases r with
+  | tok k rest => exact h
+  | panic => exact h
+  | err e rest =>
+    have := skipQ_le q rest
+    cases e <;> cases fixed <;> simp_all [recoverQ, Good] <;> omega
+
+/-! ## numbers -/
+
+theorem expPart_good (u : UC) (n : Nat) (ec : Char) (r1 : List Char) :
+    Good (r1.length + 1) (expPart u n ec r1) := by
+  unfold expPart expDigits popTok
+  split
+  · simp
+  · split
+    · split
+      · simp
+      · split
+        · exact Good.mono (runTok_good _ _ _) (by simp)
+        · simp
+    · split
+      · exact Good.mono (runTok_good _ _ _) (by simp)
+      · simp
+
+theorem fracGo_good (u : UC) (n : Nat) (s : List Char) : Good s.length (fracGo u n s) := by
+  fun_induction fracGo u n s <;> simp_all
+  all_goals first
+    | omega
+    | exact Good.mono (by assumption) (by omega)
+    | exact Good.mono (expPart_good _ _ _ _) (by simp)
+
+theorem dropRun_le (p : Char → Bool) (s : List Char) : (dropRun p s).length ≤ s.length := by
+  fun_induction dropRun p s <;> simp_all <;> omega
+
+theorem radixConst_good (p : Char → Bool) (c : Char) (r : List Char) :
+    Good (r.length + 1) (radixConst p c r) := by
+  have hd := dropRun_le p r
+  unfold radixConst
+  split
+  · simp
+  · split
+    · simp_all; omega
+    · simp
+
+theorem afterInt_good (u : UC) (z : Bool) (n : Nat) (c : Char) (r : List Char) :
+    Good (r.length + 1) (afterInt u z n c r) := by
+  unfold afterInt
+  split
+  · split
+    · simp
+    · split
+      · exact Good.mono (fracGo_good _ _ _) (by len_tac)
+      · simp
+  · split
+    · split
+      · exact radixConst_good _ _ _
+      · split
+        · exact radixConst_good _ _ _
+        · split
+          · exact radixConst_good _ _ _
+          · split
+            · have := qGo_good u .ch .items r; simpa using this
+            · simp
+    · simp
+
+theorem intGo_good (u : UC) (st : NS) (z : Bool) (n : Nat) (s : List Char) :
+    Good s.length (intGo u st z n s) := by
+  fun_induction intGo u st z n s <;> simp_all
+  all_goals first
+    | omega
+    | exact Good.mono (by assumption) (by omega)
+    | exact afterInt_good _ _ _ _ _
+    | (apply good_err
+       · len_tac
+       · (intro h; cases h))
+
+/-! ## `next_token` -/
+
+theorem good_ite {n : Nat} {c : Prop} [Decidable c] {a b : R} (ha : c → Good n a) (hb : ¬c → Good n b) :
+    Good n (if c then a else b) := by
+  split
+  · exact ha (by assumption)
+  · exact hb (by assumption)
+
+theorem tokAt_good (u : UC) (ins : Bool) (c : Char) (r : List Char) :
+    Good r.length (tokAt u true ins (c :: r)) := by
+  simp only [tokAt]
+  repeat' (apply good_ite <;> intro _)
+  all_goals first
+    | exact runTok_good _ _ _
+    | exact intGo_good _ _ _ _ _
+    | exact recoverQ_good _ _ _ _ (bqGo_good _ _)
+    | exact recoverQ_good _ _ _ _ (by simpa using qGo_good u .dq .items r)
+    | exact recoverQ_good _ _ _ _ (by simpa using qGo_good u .sq .items r)
+    | (simp_all; done)
+    | (simp_all; omega)
+    | (apply good_err; simp; intro h; cases h)
+    | (cases r with
+       | nil => simp
+       | cons d r' =>
+         apply good_ite <;> intro _
+         · simp; split <;> simp <;> omega
+         · exact runTok_good _ _ _)
+
+theorem nextTok_good (u : UC) (s : List Char) : Good (s.length - 1) (nextTok u true s) := by
+  unfold nextTok
+  split
+  · rename_i e he
+    cases e <;> simp [Good]
+  · rename_i ins r he
+    have hle := scanLayout_le u s ins r he
+    cases r with
+    | nil => simp [tokAt]
+    | cons c t => exact Good.mono (tokAt_good u ins c t) (by simp at hle; omega)
+
+theorem nextTok_nil (u : UC) (f : Bool) : nextTok u f [] = .err .eof [] := rfl
+
+/-- a token consumes at least one character -/
+theorem nextTok_tok_lt (u : UC) (s : List Char) (k : Kind) (rest : List Char)
+    (h : nextTok u true s = .tok k rest) : rest.length < s.length := by
+  have hg := nextTok_good u s
+  cases s with
+  | nil => simp [nextTok_nil] at h
+  | cons c t => rw [h] at hg; simp at hg ⊢; omega
+
+/-- a lexical error other than "end of input" consumes at least one character -/
+theorem nextTok_err_lt (u : UC) (s : List Char) (e : Err) (rest : List Char)
+    (h : nextTok u true s = .err e rest) (he : e ≠ .eof) : rest.length < s.length := by
+  have hg := nextTok_good u s
+  cases s with
+  | nil => simp [nextTok_nil] at h; exact absurd h.1.symm he
+  | cons c t =>
+    rw [h] at hg
+    cases e <;> first | exact absurd rfl he | (simp [Good] at hg ⊢; omega)
+
+/-- "end of input" is only reported with the input exhausted -/
+theorem nextTok_eof_nil (u : UC) (s : List Char) (rest : List Char)
+    (h : nextTok u true s = .err .eof rest) : rest = [] := by
+  have hg := nextTok_good u s
+  rw [h] at hg
+  exact hg
+
+theorem nextTok_no_panic (u : UC) (s : List Char) : nextTok u true s ≠ .panic := by
+  intro h
+  have hg := nextTok_good u s
+  rw [h] at hg
+  exact hg
+
+/-! ## fuel is never exhausted -/
+
+theorem skipGo_some (u : UC) : ∀ (f : Nat) (s : List Char), s.length < f →
+    ∃ r, skipGo u f s = some r ∧ r.length ≤ s.length := by
+  intro f
+  induction f with
+  | zero => intro s h; omega
+  | succ f ih =>
+    intro s h
+    unfold skipGo
+    split
+    · rename_i rest he
+      exact ⟨rest, rfl, Nat.le_of_lt (nextTok_tok_lt u s _ rest he)⟩
+    · rename_i k rest hk he
+      have hlt := nextTok_tok_lt u s _ rest he
+      obtain ⟨r, hr, hle⟩ := ih rest (by omega)
+      exact ⟨r, hr, by omega⟩
+    · exact ⟨[], rfl, by simp⟩
+    · rename_i e rest hne he
+      have hlt := nextTok_err_lt u s _ rest he (by intro h'; subst h'; first | exact hne rfl | exact hne _ rfl | exact (hne _ he))
+      obtain ⟨r, hr, hle⟩ := ih rest (by omega)
+      exact ⟨r, hr, by omega⟩
+    · rename_i he
+      exact absurd he (nextTok_no_panic u s)
+
+theorem skipToEnd_some (u : UC) (s : List Char) : ∃ r, skipToEnd u s = some r ∧ r.length ≤ s.length :=
+  skipGo_some u _ s (by simp)
+
+theorem tokensGo_spec (u : UC) : ∀ (f n : Nat) (s : List Char), s.length < f →
+    ∃ o r, tokensGo u true f n s = some (o, r) ∧ o ≠ .eof ∧ r.length ≤ s.length ∧
+      (s ≠ [] → r.length < s.length) := by
+  intro f
+  induction f with
+  | zero => intro n s h; omega
+  | succ f ih =>
+    intro n s h
+    unfold tokensGo
+    split
+    · rename_i rest he
+      have := nextTok_tok_lt u s _ rest he
+      exact ⟨_, _, rfl, by simp, by omega, fun _ => this⟩
+    · rename_i k rest hk he
+      have hlt := nextTok_tok_lt u s _ rest he
+      obtain ⟨o, r, hr, ho, hle, _⟩ := ih (n + 1) rest (by omega)
+      exact ⟨o, r, hr, ho, by omega, fun _ => by omega⟩
+    · rename_i rest he
+      have := nextTok_eof_nil u s rest he
+      subst this
+      refine ⟨_, _, rfl, by simp, by simp, fun hs => ?_⟩
+      cases s with
+      | nil => exact absurd rfl hs
+      | cons c t => simp
+    · rename_i e rest hne he
+      have hlt := nextTok_err_lt u s _ rest he (by intro h'; subst h'; first | exact hne rfl | exact hne _ rfl | exact (hne _ he))
+      obtain ⟨r, hr, hle⟩ := skipToEnd_some u rest
+      refine ⟨.error e, r, by simp [hr], by simp, by omega, fun _ => by omega⟩
+    · rename_i he
+      exact absurd he (nextTok_no_panic u s)
+
+theorem scanLayout_nil (u : UC) : scanLayout u [] = .err .eof := rfl
+
+theorem readClause_spec (u : UC) (s : List Char) :
+    ∃ o r, readClause u s = some (o, r) ∧ r.length ≤ s.length ∧ (o ≠ .eof → r.length < s.length) := by
+  unfold readClause
+  split
+  · exact ⟨_, _, rfl, by simp, fun h => absurd rfl h⟩
+  · rename_i e hne he
+    refine ⟨_, _, rfl, by simp, fun _ => ?_⟩
+    cases s with
+    | nil => rw [scanLayout_nil] at he; cases he; first | exact absurd rfl hne | exact (hne rfl).elim
+    | cons c t => simp
+  · exact ⟨_, _, rfl, by simp, fun h => absurd rfl h⟩
+  · rename_i ins r hr he
+    have hle := scanLayout_le u s ins r he
+    obtain ⟨o, r', h1, h2, h3, h4⟩ := tokensGo_spec u (r.length + 1) 0 r (by omega)
+    have hne : r ≠ [] := by intro h; subst h; first | exact hr rfl | exact hr _ rfl | exact hr _ he
+    exact ⟨o, r', h1, by omega, fun _ => by have := h4 hne; omega⟩
+
+theorem readsGo_fuel (u : UC) : ∀ (f f' : Nat) (s : List Char), s.length < f → s.length < f' →
+    readsGo u f s = readsGo u f' s := by
+  intro f
+  induction f with
+  | zero => intro f' s h; omega
+  | succ f ih =>
+    intro f' s h h'
+    cases f' with
+    | zero => omega
+    | succ f' =>
+      obtain ⟨o, r, hc, hle, hlt⟩ := readClause_spec u s
+      unfold readsGo
+      rw [hc]
+      cases o with
+      | eof => rfl
+      | clause n => simp only []; rw [ih f' r (by have := hlt (by simp); omega) (by have := hlt (by simp); omega)]
+      | error e => simp only []; rw [ih f' r (by have := hlt (by simp); omega) (by have := hlt (by simp); omega)]
+
+theorem readsGo_some (u : UC) : ∀ (f : Nat) (s : List Char), s.length < f → ∃ l, readsGo u f s = some l := by
+  intro f
+  induction f with
+  | zero => intro s h; omega
+  | succ f ih =>
+    intro s h
+    obtain ⟨o, r, hc, hle, hlt⟩ := readClause_spec u s
+    unfold readsGo
+    rw [hc]
+    cases o with
+    | eof => exact ⟨[], rfl⟩
+    | clause n =>
+      obtain ⟨l, hl⟩ := ih r (by have := hlt (by simp); omega)
+      exact ⟨(.clause n, s.length - r.length) :: l, by simp [hl]⟩
+    | error e =>
+      obtain ⟨l, hl⟩ := ih r (by have := hlt (by simp); omega)
+      exact ⟨(.error e, s.length - r.length) :: l, by simp [hl]⟩
+
+/-- one read, then the reads of what it left -/
+theorem reads_step (u : UC) (s : List Char) (o : Outcome) (rest : List Char)
+    (hc : readClause u s = some (o, rest)) (ho : o ≠ .eof) :
+    reads u s = (reads u rest).map fun l => (o, s.length - rest.length) :: l := by
+  obtain ⟨o', r', hc', hle, hlt⟩ := readClause_spec u s
+  rw [hc] at hc'
+  cases hc'
+  have hlt' := hlt ho
+  unfold reads
+  rw [readsGo_fuel u (rest.length + 1) s.length rest (by omega) hlt']
+  conv => lhs; unfold readsGo
+  rw [hc]
+  cases o with
+  | eof => exact absurd rfl ho
+  | clause n => rfl
+  | error e => rfl
+
+theorem reads_eof (u : UC) (s : List Char) (rest : List Char)
+    (hc : readClause u s = some (.eof, rest)) : reads u s = some [] := by
+  unfold reads readsGo
+  rw [hc]
+
+/-! ## only the end-token branch yields an end token -/
+
+def NoEnd : R → Prop
+  | .tok .endT _ => False
+  | _ => True
+
+theorem runTok_noEnd (p : Char → Bool) (k : Kind) (s : List Char) (hk : k ≠ .endT) : NoEnd (runTok p k s) := by
+  fun_induction runTok p k s <;> simp_all [NoEnd]
+
+theorem qGo_noEnd (u : UC) (m : QM) (st : QS) (s : List Char) : NoEnd (qGo u m st s) := by
+  fun_induction qGo u m st s <;> simp_all [NoEnd]
+
+theorem bqGo_noEnd (u : UC) (s : List Char) : NoEnd (bqGo u s) := by
+  fun_induction bqGo u s <;> simp_all [NoEnd]
+
+theorem recoverQ_noEnd (f : Bool) (q : Char) (r : R) (h : NoEnd r) : NoEnd (recoverQ f q r) := by
+  cases r with
+  | tok k rest => exact h
+  | panic => exact h
+  | err e rest => cases e <;> cases f <;> simp [recoverQ, NoEnd]
+
+theorem expPart_noEnd (u : UC) (n : Nat) (ec : Char) (r1 : List Char) : NoEnd (expPart u n ec r1) := by
+  unfold expPart expDigits popTok
+  repeat' split
+  all_goals first
+    | exact runTok_noEnd _ _ _ (by simp)
+    | simp [NoEnd]
+
+theorem fracGo_noEnd (u : UC) (n : Nat) (s : List Char) : NoEnd (fracGo u n s) := by
+  fun_induction fracGo u n s <;> simp_all [NoEnd]
+  exact expPart_noEnd _ _ _ _
+
+theorem radixConst_noEnd (p : Char → Bool) (c : Char) (r : List Char) : NoEnd (radixConst p c r) := by
+  unfold radixConst
+  repeat' split
+  all_goals simp [NoEnd]
+
+theorem afterInt_noEnd (u : UC) (z : Bool) (n : Nat) (c : Char) (r : List Char) : NoEnd (afterInt u z n c r) := by
+  unfold afterInt
+  repeat' split
+  all_goals first
+    | exact fracGo_noEnd _ _ _
+    | exact radixConst_noEnd _ _ _
+    | exact qGo_noEnd _ _ _ _
+    | simp [NoEnd]
+
+theorem intGo_noEnd (u : UC) (st : NS) (z : Bool) (n : Nat) (s : List Char) : NoEnd (intGo u st z n s) := by
+  fun_induction intGo u st z n s <;> simp_all [NoEnd]
+  exact afterInt_noEnd _ _ _ _ _
+
+/-- an end token reported for the input `s` (which is past the layout) means `s` stands at an end token -/
+def EndSpec (u : UC) (s : List Char) (r : R) : Prop :=
+  ∀ rest, r = .tok .endT rest → atEnd u s = true ∧ (rest = s.drop 1 ∨ rest = s.drop 2)
+
+theorem endSpec_of_noEnd {u : UC} {s : List Char} {r : R} (h : NoEnd r) : EndSpec u s r := by
+  intro rest hr
+  subst hr
+  exact h.elim
+
+theorem endSpec_ite {u : UC} {s : List Char} {c : Prop} [Decidable c] {a b : R}
+    (ha : c → EndSpec u s a) (hb : ¬c → EndSpec u s b) : EndSpec u s (if c then a else b) := by
+  split
+  · exact ha (by assumption)
+  · exact hb (by assumption)
+
+theorem tokAt_endSpec (u : UC) (f ins : Bool) (s : List Char) : EndSpec u s (tokAt u f ins s) := by
+  cases s with
+  | nil => exact endSpec_of_noEnd (by simp [tokAt, NoEnd])
+  | cons c r =>
+    simp only [tokAt]
+    repeat' (apply endSpec_ite <;> intro _)
+    all_goals first
+      | exact endSpec_of_noEnd (runTok_noEnd _ _ _ Kind.noConfusion)
+      | exact endSpec_of_noEnd (intGo_noEnd _ _ _ _ _)
+      | exact endSpec_of_noEnd (recoverQ_noEnd _ _ _ (qGo_noEnd _ _ _ _))
+      | exact endSpec_of_noEnd (recoverQ_noEnd _ _ _ (bqGo_noEnd _ _))
+      | (apply endSpec_of_noEnd; cases ins <;> simp [NoEnd] <;> done)
+      | skip
+    all_goals
+      rename_i hdot
+      have hc : c = '.' := by simpa using hdot
+      subst hc
+      cases r with
+      | nil => intro rest hr; simp at hr; subst hr; simp [atEnd]
+      | cons d r' =>
+        apply endSpec_ite <;> intro hcond
+        · intro rest hr
+          simp at hr
+          refine ⟨by simpa [atEnd] using hcond, ?_⟩
+          subst hr
+          split <;> simp
+        · exact endSpec_of_noEnd (runTok_noEnd _ _ _ Kind.noConfusion)
+
+/-- the detector fires on `.` followed by layout, `%` or the end of input, whenever the reader is at
+    a token start (`'.'` is not an upper-case letter) -/
+theorem tokAt_dot_end (u : UC) (hu : u.is_uppercase '.' = false) (f ins : Bool) (r : List Char)
+    (h : atEnd u ('.' :: r) = true) :
+    ∃ rest, tokAt u f ins ('.' :: r) = .tok .endT rest ∧ (rest = r ∨ rest = r.drop 1) := by
+  cases r with
+  | nil => exact ⟨[], by simp [tokAt, capital_letter_char, variable_indicator_char, hu], by simp⟩
+  | cons d r' =>
+    have hd : (layout_char u d || d == '%') = true := by simpa [atEnd] using h
+    refine ⟨if new_line_char u d then r' else d :: r', ?_, ?_⟩
+    · simp only [tokAt, capital_letter_char, variable_indicator_char, hu]
+      simp [hd]
+    · split <;> simp
+
+/-- skip mode stops exactly behind an end token (or at the end of input) -/
+theorem skipGo_end (u : UC) : ∀ (f : Nat) (s r : List Char), skipGo u f s = some r →
+    r = [] ∨ ∃ s', nextTok u true s' = .tok .endT r := by
+  intro f
+  induction f with
+  | zero => intro s r h; simp [skipGo] at h
+  | succ f ih =>
+    intro s r h
+    unfold skipGo at h
+    split at h
+    · rename_i rest he
+      cases h
+      exact Or.inr ⟨s, he⟩
+    · exact ih _ _ h
+    · cases h; exact Or.inl rfl
+    · exact ih _ _ h
+    · cases h
+
+theorem tokensGo_end (u : UC) : ∀ (f n : Nat) (s : List Char) (o : Outcome) (r : List Char),
+    tokensGo u true f n s = some (o, r) → r = [] ∨ ∃ s', nextTok u true s' = .tok .endT r := by
+  intro f
+  induction f with
+  | zero => intro n s o r h; simp [tokensGo] at h
+  | succ f ih =>
+    intro n s o r h
+    unfold tokensGo at h
+    split at h
+    · rename_i rest he
+      cases h
+      exact Or.inr ⟨s, he⟩
+    · exact ih _ _ _ _ h
+    · rename_i rest he
+      have := nextTok_eof_nil u s rest he
+      cases h
+      exact Or.inl this
+    · simp only [if_true] at h
+      cases hs : skipToEnd u ‹List Char› with
+      | none => simp [hs] at h
+      | some r' =>
+        simp [hs] at h
+        obtain ⟨_, hr⟩ := h
+        subst hr
+        exact skipGo_end u _ _ _ hs
+    · cases h
+
+theorem readClause_end (u : UC) (s : List Char) (o : Outcome) (r : List Char)
+    (h : readClause u s = some (o, r)) : r = [] ∨ ∃ s', nextTok u true s' = .tok .endT r := by
+  unfold readClause at h
+  split at h
+  · cases h; exact Or.inl rfl
+  · cases h; exact Or.inl rfl
+  · cases h; exact Or.inl rfl
+  · exact tokensGo_end u _ _ _ _ _ h
+
+/-- what `nextTok = End` means on the characters: after the layout the input is `.` followed by
+    layout, `%` or nothing, and the reader is left behind the `.` (and behind a new line after it) -/
+theorem nextTok_end (u : UC) (f : Bool) (s rest : List Char) (h : nextTok u f s = .tok .endT rest) :
+    ∃ ins t, scanLayout u s = .ok ins t ∧ atEnd u t = true ∧ (rest = t.drop 1 ∨ rest = t.drop 2) := by
+  unfold nextTok at h
+  split at h
+  · cases h
+  · rename_i ins t he
+    exact ⟨ins, t, he, tokAt_endSpec u f ins t rest h⟩
 
 end Scryer.Resync
